@@ -28,6 +28,7 @@ def run(ctx: Ctx, chk) -> None:
     from . import c08
 
     chk.run_rule(lambda c, k: c08.write_then_forget(c, k, loss_only=True), ctx)
+    chk.run_rule(held_kept, ctx)
 
 
 def exhaust(ctx: Ctx, chk) -> None:
@@ -242,3 +243,14 @@ def thorough(ctx: Ctx, chk) -> None:
 
     entries = [(ctx.func(SEND), V) for V in ctx.versions]
     prune_diff(ctx, chk, entries)
+
+
+def held_kept(ctx: Ctx, chk) -> None:
+    """A held message leaves the buffer only when it was handed to the transport: the re-validation analysis of C09
+    (ATOM-1) - a removal (or overwriting store) whose key was obtained before an await must check, after the
+    await, that the entry is still the one that was written; else a newer message parked meanwhile is dropped."""
+    from . import c09
+    from .common import OnlyRule
+
+    proxy = OnlyRule(chk, "ATOM-1", "HELD-KEPT", " - the message parked under that key while the write was pending is removed although it was never handed to the transport: send returned normally, the message is held and then silently discarded", "a message held for a sleeping node is removed from the buffer only if it is the very message that was just handed to the transport: every removal from / store into a message buffer whose key was obtained before an await is re-validated after the await against the current entry")
+    c09.atom1(ctx, proxy)
